@@ -341,7 +341,7 @@ def getitem(it, a, key):
                 out.append(r_sub(r_sub(p[1], 1), idx[p[2]]))
             else:
                 _, start, step, pos, _stop = p
-                out.append(r_add(start, r_mul(step, idx[pos])))
+                out.append(simp(r_add(start, r_mul(step, idx[pos]))))
         return out
 
     nout = outpos
@@ -359,7 +359,7 @@ def getitem(it, a, key):
                 conds.append(cmp(">=", s, start))
                 conds.append(cmp("<", s, stop))
                 if step == 1:
-                    out[pos] = r_sub(s, start)
+                    out[pos] = simp(r_sub(s, start))
                 else:
                     d = r_sub(s, start)
                     conds.append(cmp("==", it.mod(d, step), 0))
@@ -965,6 +965,8 @@ def call_method(it, recv, name, args, kwargs):
 def arr_method(it, a, name, args, kwargs):
     if name == "sum":
         axis = args[0] if args else kwargs.get("axis")
+        if axis is None and getattr(a, "sum_override", None) is not None:
+            return a.sum_override         # contract-level abstraction: the sum of a 0/1 mask is its number of ones (an integer symbol)
         return arr_sum(it, a, axis)
     if name == "mean":
         axis = args[0] if args else kwargs.get("axis")
@@ -1464,12 +1466,19 @@ class WhereResult:
     rank(idx) = number of true cells strictly before idx in row-major order (ghost)."""
 
     def __init__(self, it, cond):
+        import hashlib
         self.cond = cond.frozen()
-        self.n = it.ctx.fresh_int("nnz")
-        it.ctx.assume(self.n >= 0)
         nd = cond.ndim
-        self.coord = [z3.Function(fresh_name("where_ax%d" % k), z3.IntSort(), z3.IntSort()) for k in range(nd)]
-        self.rank = z3.Function(fresh_name("rank"), *([z3.IntSort()] * nd + [z3.IntSort()]))
+        # the enumeration is a function of the condition array's content: equal conditions give the same enumeration symbols
+        cidx = [z3.Int("wh!%d" % k) for k in range(nd)]
+        ce = self.cond.get(cidx)
+        ctxt = (z3.simplify(ce).sexpr() if is_z3(ce) else repr(ce)) + "|" + "|".join(z3.simplify(zi(d)).sexpr() if is_z3(d) else str(d) for d in cond.shape)
+        h = hashlib.sha256(ctxt.encode()).hexdigest()[:10]
+        self.key = h
+        self.n = z3.Int("nnz_%s" % h)
+        it.ctx.assume(self.n >= 0)
+        self.coord = [z3.Function("where_%s_ax%d" % (h, k), z3.IntSort(), z3.IntSort()) for k in range(nd)]
+        self.rank = z3.Function("where_%s_rank" % h, *([z3.IntSort()] * nd + [z3.IntSort()]))
         if not hasattr(it.ctx, "wheres"):
             it.ctx.wheres = []
         it.ctx.wheres.append(self)
@@ -1657,7 +1666,7 @@ def _bitwise_or(it, a, b):
         # float32 bit patterns: x|x = x, x|(+0.0) = x ; anything else is unspecified (fresh)
         A, B = a.a, b.a
         sa, sb = A.snapshot(), B.snapshot()
-        junk = z3.Function(fresh_name("or_bits"), z3.RealSort(), z3.RealSort(), z3.RealSort())
+        junk = z3.Function("float32_bitwise_or", z3.RealSort(), z3.RealSort(), z3.RealSort())    # a deterministic function of the two bit patterns
 
         def f(idx):
             x, y = sa(idx), sb(idx)
@@ -1928,3 +1937,29 @@ def _default_rng(it, seed=None):
 def _prange(it, *a):
     it.ctx.notes.append("numba.prange treated as range (A-JIT); the loop summary proves the writes of different iterations disjoint")
     return call_builtin(it, "range", list(a), {})
+
+
+# ----------------------------------------------------------------------------- multiprocessing.Pool
+class PoolObj:
+    """multiprocessing.Pool: map(f, xs) returns [f(x) for x in xs] in input order whatever the schedule; results are pickled copies"""
+    def __init__(self, n):
+        self.n = n
+
+    def __aovc_attr__(self, it, name):
+        return BoundMethod(self, name)
+
+    def __aovc_method__(self, it, name, args, kwargs):
+        if name == "map":
+            f, xs = args[0], args[1]
+            it.ctx.trusted_calls.add("multiprocessing.Pool.map (results in input order, independent of the schedule)")
+            return [it.call(f, [x], {}) for x in list(xs)]
+        if name in ("imap_unordered", "imap", "map_async", "apply_async"):
+            raise Unsupported("Pool.%s: results are not consumed in a schedule-independent order" % name)
+        if name in ("close", "join", "terminate"):
+            return None
+        return NotImplemented
+
+
+@ext("multiprocessing.Pool")
+def _pool(it, n=None, **kw):
+    return PoolObj(n)
